@@ -7,6 +7,7 @@ pub fn lookup(name: &str) -> Option<fn()> {
     None.or_else(|| super::fuzzy::lookup(name))
         .or_else(|| super::chars_h::lookup(name))
         .or_else(|| super::exact_h::lookup(name))
+        .or_else(|| super::uni_h::lookup(name))
 }
 
 #[cfg(test)]
